@@ -76,6 +76,17 @@ def run_query(fd, q):
     raise AssertionError(k)
 
 
+def apply_mod(fd, q):
+    """in-place modification of the mesh between two queries"""
+    if q['op'] == 'set_conn':
+        eids = [int(x) for x in fd.elements.ids]
+        fd.elements.data = np.array([q['rows'][str(e)] for e in eids], dtype=np.int64)
+    elif q['op'] == 'remove_useless_nodes':
+        fd.remove_useless_nodes()
+    else:
+        raise AssertionError(q['op'])
+
+
 def main():
     spec = json.loads(sys.stdin.read())
     out = []
@@ -98,6 +109,10 @@ def main():
                 sink.truncate()
                 try:
                     fd = shared if shared is not None else build(case['mesh'])
+                    if q['kind'] == 'mod':
+                        apply_mod(fd, q)
+                        res.append({'mod': 'done'})
+                        continue
                     M = run_query(fd, q)
                     r = triples(M)
                     if q['kind'] in ('inc', 'adj'):
